@@ -181,6 +181,37 @@ theorem edif_reader_spec_partial (items : List NetItem) (hwf : NetsWF items) :
           (∃ x ∈ (bitsOf it.name items).map (·.1), c.lo + c.ws.length = x + 1) :=
   nets_any_order items hwf
 
+/-- … every SCALAR net of the list survives as the one-wire cable of its name with exactly its pins,
+    wherever it stands among the bit nets … -/
+theorem edif_reader_spec_scalars (items : List NetItem) (hwf : NetsWF items) (it : NetItem) (hit : it ∈ items)
+    (hidx : it.idx = none) : busOf it.name (items.foldl netStep []) = some ⟨0, [it.pins]⟩ :=
+  scalar_survives items hwf it hit hidx
+
+/-- … and there is exactly one cable per declared (cable-level) name: the resulting names are pairwise
+    different and are exactly the names the nets declare (so the number of cables is the number of
+    distinct names).  `items.foldl netStep []` is the value the reader's loop returns
+    (`reader_loop_is_netStep`). -/
+theorem edif_reader_spec_names (items : List NetItem) (hwf : NetsWF items) :
+    (cableNames (items.foldl netStep [])).Nodup ∧
+    (∀ x ∈ items, some x.name ∈ cableNames (items.foldl netStep [])) ∧
+    (∀ o ∈ cableNames (items.foldl netStep []), ∃ x ∈ items, o = some x.name) :=
+  one_cable_per_name items hwf
+
+theorem reader_loop_is_netStep (items : List NetItem) (hwf : NetsWF items) :
+    items.foldlM (fun cs it => multibitAdd cs it.data it.pins) [] = .ok (items.foldl netStep []) :=
+  foldlM_multibitAdd items hwf [] items [] rfl (by intro c hc; cases hc)
+
+/-!
+Scope of `NetsWF` (and so of the three theorems above): nets with the same cable-level name are bits
+of one bus with one identifier stem, different names have identifiers that differ ignoring case, a
+scalar net is declared once and is not named like a bus bit.  Outside it — a scalar net carrying the
+name of a bus assembled from bit nets, two buses sharing an identifier stem (`foo_0_ "x[0]"`,
+`foo_1_ "y[1]"`), a net declared twice under one name — the reader's result depends on the order of
+the nets (pinned findings `edif.reader.scalar_net_shorted_to_bus`, `edif.reader.bus_identity_by_identifier_stem`)
+and the model's `multibitAdd` answers `Err.unsupported` on the ValueError fallback.
+`multibit_merge` states positions with `getD … []` together with `lower ≤ index < lower + length`.
+-/
+
 /-- non-vacuity: bus `a` arrives as bits 2, 0, 3 (bit 1 missing), interleaved with a scalar net `clk`
     and a bit of another bus; the reader's loop yields cable `a` based at 0 with four wires -/
 def exItems : List NetItem :=
